@@ -33,6 +33,8 @@ EXPLANATION_ADDED = (" (R8, which replaces the structural R1/R2/R5) the raw pars
 EXPLANATION += EXPLANATION_ADDED
 EXPLANATION_ADDED2 = (" (R3b) the size and angle lexers are probed once per dispatch branch and per number ending. (R9, deep tier) grammar enumeration: every document of at most three lines over a 16-line DS9 grammar (frame lines, global lines, shape lines with and without sign/metadata, composite headers and members, comments, unsupported keywords: 7324 documents) is pushed through the partially evaluated raw parser and compared with a state-machine oracle written from the property's statement (current frame, global metadata, composite state, include sign).")
 EXPLANATION += EXPLANATION_ADDED2
+EXPLANATION_ADDED3 = (' (R10) regions read from one text share no mutable metadata object (C13.R7 on the DS9 reader).')
+EXPLANATION += EXPLANATION_ADDED3
 TRUSTED = ['astropy Angle(str, unit) / Quantity(float, unit) parse as documented', 'str.split/strip/lower']
 ASSUMPTIONS = ['lines reach the raw parser one statement at a time (splitting is not decided)']
 
@@ -863,6 +865,13 @@ def r9(ctx):
         ctx.ok(name, f'{n} grammar documents (<= 3 lines over {len(G_LINES)} line kinds, two separators) read as DS9 defines')
 
 
+def r10(ctx):
+    """the regions read from one text are independent of each other: the global / composite metadata that lives across
+    the lines, and the metadata parsed once for a multi-radius line, reach each region only as deep copies (C13.R7)."""
+    from .c13 import r7 as c13r7
+    c13r7(ctx)
+
+
 RULES = [
     RuleDef('R7', 'shape line -> (parameter string, metadata string) on probe lines', r7, 1),
     RuleDef('R8', 'raw parser on probe documents: frame state/requirement, keyword partition, include, metadata, composite', r8, 40),
@@ -871,4 +880,5 @@ RULES = [
     RuleDef('R3b', 'angle/size lexer probes (one per branch and per number ending)', r3b, 1),
     RuleDef('R4', 'parameter templates per shape (symbolic parse), annulus expansion, frame names', r4, 27),
     RuleDef('R6', 'text in {} "" \'\' is kept verbatim (lexer partially evaluated on delimiter probes); ";" protected in free text', r6, 5),
+    RuleDef('R10', 'regions read from one text share no mutable metadata object (C13.R7)', r10, 2),
 ]
